@@ -690,6 +690,9 @@ impl Server {
                 }
             }
             
+            // Frames kept back while the client was blocked come first
+            frames_to_process.append(&mut conn.deferred_frames);
+            
             // Read data from connection
             match conn.read() {
                 Ok(true) => {
@@ -766,10 +769,17 @@ impl Server {
             return Err(e);
         }
         
+        // A client that has gone executes nothing more (what can be left here are frames kept back while
+        // it was blocked: the read above found end-of-file, or the connection was already closing)
+        if self.connections.with_connection(id, |conn| conn.is_closing()).unwrap_or(true) {
+            frames_to_process.clear();
+        }
+        
         // Second phase: process frames without the lock
         let mut responses = Vec::new();
         let mut needs_immediate_flush = false; // Track if any command needs immediate response
-        for frame in frames_to_process {
+        let mut frames = frames_to_process.into_iter();
+        while let Some(frame) = frames.next() {
             // Process each frame and increment command counter
             self.stats.total_commands_processed.fetch_add(1, Ordering::Relaxed);
             
@@ -850,6 +860,18 @@ impl Server {
                 }
             };
             responses.push(response);
+            
+            // A blocking command that blocked ends the batch: a blocked client executes nothing (its later
+            // BLPOP would register it twice and never be answered); the rest waits until it is unblocked
+            if self.is_connection_blocked(id) {
+                let rest: Vec<RespFrame> = frames.by_ref().collect();
+                if !rest.is_empty() {
+                    self.connections.with_connection(id, |conn| {
+                        conn.deferred_frames = rest;
+                    });
+                }
+                break;
+            }
         }
         
         // A protocol violation is answered with an error instead of silence, after the replies
